@@ -366,7 +366,7 @@ def qastle_text(t: T.Term) -> str:
     return qastle.python_ast_to_text_ast(T.to_ast(t))
 
 
-def qastle_roundtrip(t: T.Term) -> T.Term:
-    import qastle
+def qastle_roundtrip(t: T.Term, text: Optional[str] = None) -> T.Term:
+    from .pipeline import qastle_parse
 
-    return T.from_ast(qastle.text_ast_to_python_ast(qastle_text(t)).body[0].value)
+    return T.from_ast(qastle_parse(text if text is not None else qastle_text(t)))
